@@ -8,5 +8,5 @@ mkdir -p run evidence replays
 for g in tools/gen_*.py; do python3 "$g" || echo "generator $g failed (left to the checks to report)"; done
 cp -f /repo/Cargo.lock harness/Cargo.lock
 (cd harness && cargo build --offline 2>&1 | tail -3)
-(cd lean && lake build LdkModel $(grep -o 'drv_c[0-9]*' lakefile.toml | sort -u | tr '\n' ' ') 2>&1 | tail -3)
+(cd lean && lake build LdkModel $(grep -o 'drv_[a-z0-9]*' lakefile.toml | sort -u | tr '\n' ' ') 2>&1 | tail -3)
 echo setup-done
